@@ -1141,6 +1141,8 @@ pub fn plan_c13(thorough: bool) -> Plan {
     }
     menu.push(json!({"prepopulate": true}));
     menu.push(json!({"rollback": true}));
+    // no cache at all: every page and every leaf is fetched whenever it is needed
+    menu.push(json!({"page_cache": 0, "leaf_cache": 0, "upper_levels": 0}));
     let mut cfgs: Vec<Value> = menu.clone();
     if thorough {
         for i in 1..menu.len() {
@@ -1161,6 +1163,9 @@ pub fn plan_c13(thorough: bool) -> Plan {
         ("leaf", vec!["seed:0,2,5", "U4"], vec![json!({"cw": [w(0, 70000), w(3, 1333)]}), json!({"cw": [del(0), json!([1, "rd"])]}), json!({"reopen": {}}), json!({"cw": [w(4, 1300), w(5, 1300), w(6, 1300)]})]),
         ("bulk", vec!["seed:0,300,700,1100,1499", "U4"], vec![json!({"cw": [del(0), del(2), w(5, 9), w(8, 1333)]}), json!({"cw": [w(1, 1), del(4)]}), json!({"reopen": {}}), json!({"cw": [w(0, 3)]})]),
         ("branch", vec!["seed:0,1,299,300,598,599"], vec![json!({"cw": [del(0), del(1), del(2)]}), json!({"cw": [w(0, 1300), w(3, 1333)]}), json!({"reopen": {}}), json!({"cw": [del(5)]})]),
+        // volume: batches of hundreds of keys (reads, writes, deletes) over 1500 random keys, every
+        // key audited
+        ("bulk", vec!["seed:all"], vec![json!({"cw": [[0, "wn", 700]]}), json!({"cw": [[100, "rn", 300], [800, "dn", 100], [1000, "wn", 200]]}), json!({"reopen": {}}), json!({"cw": [[0, "dn", 400]]})]),
         // a two-leaf trie whose terminals span several workers' key ranges; batches around the
         // range boundaries of 3, 5, 6 and 7 workers
         ("empty", vec!["WRK"], vec![json!({"c": [w(0, 1), w(9, 1)]}), json!({"cw": [w(3, 1), w(5, 1), w(6, 1), w(7, 1)]}), json!({"reopen": {}}), json!({"cw": [del(3), w(1, 1), w(4, 2), del(7)]}), json!({"cw": [w(2, 1), del(5), del(6), w(8, 1)]})]),
@@ -1227,7 +1232,7 @@ pub fn plan_c13(thorough: bool) -> Plan {
     sort_by_bound(&mut cases);
     let mut p = Plan::new(
         cases,
-        "histx: deviation-bounded enumeration of the option space around the default configuration: every configuration with ≤1 (thorough ≤2) option moved to another menu value {commit_concurrency 2,3,5,6,7,16,64,65; warm_up; adversarial device (the I/O workers deliver the completions of a burst newest first); page cache 0/1 MiB; leaf cache 0/1 MiB; io_workers 2,3; hashtable_buckets 1000 (not a power of two), 65536; another bitbox seed; page_cache_upper_levels 0,1,3 with and without prepopulation; rollback on} × a fixed set of 7 multi-commit histories that span several workers' key ranges (one of them a two-leaf trie whose terminals straddle the range boundaries of 3, 5, 6 and 7 workers), plus the tombstone family (16/32-bucket tables × searched bitbox seeds, pages removed and re-inserted, cold reopen), witnessed batches of 650–1300 warmed-up keys with 1 and 2 workers, batches over 8000 keys on a cold store with minimum caches and 1 / 2 / 64 workers (far more seeks than one worker's in-flight page budget), the shared root page, the elision threshold from both sides (19- and 21-key clusters), overflow values, leaf and branch splits/merges, each with a mid-history reopen; every commit is witnessed; oracle: roots, values, proofs for every universe key, witness verification and update replay all equal the reference model (hence equal across configurations). Thread interleavings of the internal workers: every schedule with ≤2 (thorough: all) preemptions of the three merkle update workers of one witnessed commit (worker start, publish child-page roots, hand back the write pass, root-page phase) under the controlled scheduler, two batches (updates / deletes incl. a root-page leaf). Also ALL schedules (a few hundred per batch) of the three beatree leaf-stage workers of one commit whose ranges are three consecutive leaves that all fall below the merge threshold (three batches: two of three values deleted / values shrunk and last leaf deleted / middle leaf deleted), i.e. of the extend-range protocol between neighbouring workers (poll left neighbour, send request, wait for response, wait for left neighbour to conclude, join in completion order): after every schedule the values, root and proofs equal the model and the directory decodes (independent decoder) to exactly the model with every page accounted for. And the branch stage: seed with two bottom branch nodes, one commit deleting 420–440 consecutive keys (≈ 140 leaves) so that the first node falls below the merge threshold and its worker requests nodes from its right neighbour, with three leaf-stage workers running under the scheduler as well (2 batches; every schedule with 0 preemptions quick, ≤1 and a capped ≤2 thorough).",
+        "histx: deviation-bounded enumeration of the option space around the default configuration: every configuration with ≤1 (thorough ≤2) option moved to another menu value {commit_concurrency 2,3,5,6,7,16,64,65; warm_up; adversarial device (the I/O workers deliver the completions of a burst newest first); page cache 0/1 MiB; leaf cache 0/1 MiB; io_workers 2,3; hashtable_buckets 1000 (not a power of two), 65536; another bitbox seed; page_cache_upper_levels 0,1,3 with and without prepopulation; rollback on; no cache at all (page cache 0, leaf cache 0, no pinned levels)} × a fixed set of 8 multi-commit histories (one of them with batches of 700 / 600 / 400 keys over 1500 random keys, every key audited) that span several workers' key ranges (one of them a two-leaf trie whose terminals straddle the range boundaries of 3, 5, 6 and 7 workers), plus the tombstone family (16/32-bucket tables × searched bitbox seeds, pages removed and re-inserted, cold reopen), witnessed batches of 650–1300 warmed-up keys with 1 and 2 workers, batches over 8000 keys on a cold store with minimum caches and 1 / 2 / 64 workers (far more seeks than one worker's in-flight page budget), the shared root page, the elision threshold from both sides (19- and 21-key clusters), overflow values, leaf and branch splits/merges, each with a mid-history reopen; every commit is witnessed; oracle: roots, values, proofs for every universe key, witness verification and update replay all equal the reference model (hence equal across configurations). Thread interleavings of the internal workers: every schedule with ≤2 (thorough: all) preemptions of the three merkle update workers of one witnessed commit (worker start, publish child-page roots, hand back the write pass, root-page phase) under the controlled scheduler, two batches (updates / deletes incl. a root-page leaf). Also ALL schedules (a few hundred per batch) of the three beatree leaf-stage workers of one commit whose ranges are three consecutive leaves that all fall below the merge threshold (three batches: two of three values deleted / values shrunk and last leaf deleted / middle leaf deleted), i.e. of the extend-range protocol between neighbouring workers (poll left neighbour, send request, wait for response, wait for left neighbour to conclude, join in completion order): after every schedule the values, root and proofs equal the model and the directory decodes (independent decoder) to exactly the model with every page accounted for. And the branch stage: seed with two bottom branch nodes, one commit deleting 420–440 consecutive keys (≈ 140 leaves) so that the first node falls below the merge threshold and its worker requests nodes from its right neighbour, with three leaf-stage workers running under the scheduler as well (2 batches; every schedule with 0 preemptions quick, ≤1 and a capped ≤2 thorough).",
     );
     p.budget_s = if thorough { 1700 } else { 55 };
     p.assumptions = vec!["thread interleavings of the internal workers are those the OS scheduler produced in these runs plus the controlled schedules of the schedx engine (see C15 evidence); sequentially-consistent interleavings only".into()];
